@@ -155,6 +155,26 @@ pub fn base_cases(cfg: &Cfg, isn: u32, xid: u32) -> Vec<(&'static str, Vec<u8>)>
         useg[7] = 0xff;
         v.push(("udp-computed-checksum-0000-sent-as-ffff", build_ip(peer, me, 17, &useg)));
     }
+    // IPv4 headers with options (IHL > 5): the header checksum covers IHL x 4 octets, so a flip in
+    // the option area must be detected; the intact packets must keep their normal effect.
+    if v4 {
+        let mut big = vec![0x94u8, 4, 0, 0];
+        big.extend(std::iter::repeat(1u8).take(32));
+        big.extend([0u8, 0, 0, 0]);
+        let optsets: [(&'static [&'static str; 4], Vec<u8>); 4] = [
+            (&["ipv4-options-ihl6-eol-udp-to-socket", "ipv4-options-ihl6-eol-udp-to-closed-port", "ipv4-options-ihl6-eol-icmp-echo-request", "ipv4-options-ihl6-eol-tcp-syn-to-listener"], vec![0, 0, 0, 0]),
+            (&["ipv4-options-ihl6-nop-udp-to-socket", "ipv4-options-ihl6-nop-udp-to-closed-port", "ipv4-options-ihl6-nop-icmp-echo-request", "ipv4-options-ihl6-nop-tcp-syn-to-listener"], vec![1, 1, 1, 0]),
+            (&["ipv4-options-ihl7-router-alert-udp-to-socket", "ipv4-options-ihl7-router-alert-udp-to-closed-port", "ipv4-options-ihl7-router-alert-icmp-echo-request", "ipv4-options-ihl7-router-alert-tcp-syn-to-listener"], vec![0x94, 4, 0, 0, 0, 0, 0, 0]),
+            (&["ipv4-options-ihl15-udp-to-socket", "ipv4-options-ihl15-udp-to-closed-port", "ipv4-options-ihl15-icmp-echo-request", "ipv4-options-ihl15-tcp-syn-to-listener"], big),
+        ];
+        let d4 = [0xc1u8, 0xc2, 0xc3, 0xc4];
+        for (names, opts) in optsets.iter() {
+            v.push((names[0], build_ip4_opts(peer, me, 17, opts, &build_udp(peer, me, PEER_PORT, UDP_PORT, &d4))));
+            v.push((names[1], build_ip4_opts(peer, me, 17, opts, &build_udp(peer, me, PEER_PORT, 9999, &d4))));
+            v.push((names[2], build_ip4_opts(peer, me, 1, opts, &build_echo(peer, me, true, 0x2222, 5, &d4))));
+            v.push((names[3], build_ip4_opts(peer, me, 6, opts, &build_tcp(peer, me, PEER_PORT + 4, TCP_LISTEN, 0x4000_0000, 0, SYN, 512, &[], &[]))));
+        }
+    }
     v.push(("ip-unknown-protocol", build_ip(peer, me, 253, &d8)));
     v
 }
@@ -348,7 +368,7 @@ fn eval(cfg: &Cfg, case: &str, base: &[u8], flips: &[usize], fix: bool, st: &mut
 }
 
 /// sweep all flips of all base cases under one configuration
-fn sweep(cfg: &Cfg, double: bool, fix: bool, only_cases: Option<&[&str]>) -> CStats {
+fn sweep(cfg: &Cfg, double: bool, double_opts: bool, fix: bool, only_cases: Option<&[&str]>) -> CStats {
     let (_, isn, xid) = match make_world(cfg) {
         Ok(x) => x,
         Err(e) => {
@@ -373,13 +393,14 @@ fn sweep(cfg: &Cfg, double: bool, fix: bool, only_cases: Option<&[&str]>) -> CSt
         // bytes of the BOOTP sname/file fields (IP 20 + UDP 8 + BOOTP offset 44..236); single
         // flips cover every bit
         let in_skip = |b: usize| cfg.dhcp > 0 && (72 * 8..264 * 8).contains(&b);
-        let firsts: Vec<usize> = (0..nbits).filter(|&b| !fix || (b < 160 && !in_ck(b))).collect();
+        let hdr_bits = if cfg.ver == Ver::V4 { ((base[0] & 0x0f) as usize) * 32 } else { 0 };
+        let firsts: Vec<usize> = (0..nbits).filter(|&b| !fix || (b < hdr_bits && !in_ck(b))).collect();
         let st = firsts
             .par_iter()
             .map(|&i| {
                 let mut st = CStats::default();
                 eval(cfg, case, &base, &[i], fix, &mut st);
-                if double && !in_skip(i) {
+                if double && !in_skip(i) && (double_opts || !case.starts_with("ipv4-options")) {
                     for j in i + 1..nbits {
                         if (fix && in_ck(j)) || in_skip(j) {
                             continue;
@@ -419,7 +440,40 @@ fn confirm_bases(cfg: &Cfg, rep: &mut Report, table: &mut BTreeMap<String, Strin
             Ok(o) => {
                 n += 1;
                 table.insert(format!("{}|{}", cfg.name(), case), o.effect().to_string());
-                if o.effect() == "no-effect" || o.effect() == "panic" {
+                if o.effect() == "no-effect" && exp_valid {
+                    // An independently valid packet is ignored. If it is accepted as soon as rx
+                    // verification of exactly one protocol's checksum is switched off, the stack's
+                    // verification rejects a checksum that verifies: the checksum is not
+                    // "computed correctly" on the receive side. Otherwise the harness is vacuous.
+                    let names = ["ipv4-header", "udp", "tcp", "icmpv4", "icmpv6"];
+                    let mut culprit = None;
+                    for i in 0..5 {
+                        if !cfg.caps.rx(i) {
+                            continue;
+                        }
+                        let mut c2 = cfg.caps.0;
+                        c2[i] = if cfg.caps.tx(i) { 2 } else { 3 };
+                        let cfg2 = Cfg { caps: Caps(c2), ..*cfg };
+                        if let Ok(o2) = deliver_fresh(&cfg2, Some(&base)) {
+                            if o2.effect() != "no-effect" && o2.effect() != "panic" {
+                                culprit = Some((names[i], o2.effect(), cfg2));
+                                break;
+                            }
+                        }
+                    }
+                    match culprit {
+                        Some((which, eff, cfg2)) => rep.violation(
+                            format!("C08/valid-checksum-rejected/{}", which),
+                            format!("{}: packet {} verifies under the independent implementation but is ignored; with rx verification of the {} checksum switched off ({}) it has its normal effect '{}': the stack's verification rejects a valid checksum; packet {}", cfg.name(), case, which, cfg2.name(), eff, hex(&base)),
+                            {
+                                let mut r = replay_json(cfg, case, &[], false, &base);
+                                r["expect_effect"] = json!(true);
+                                r
+                            },
+                        ),
+                        None => rep.machinery_errors.push(format!("(c) {}: unmodified packet {} has no effect (test would be vacuous)", cfg.name(), case)),
+                    }
+                } else if o.effect() == "no-effect" || o.effect() == "panic" {
                     rep.machinery_errors.push(format!("(c) {}: unmodified packet {} has effect '{}' (test would be vacuous)", cfg.name(), case, o.effect()));
                 }
             }
@@ -500,7 +554,9 @@ pub fn run(rep: &mut Report, tier: Tier) {
         if !fix {
             *bases += confirm_bases(&cfg, rep, &mut base_table);
         }
-        let st = sweep(&cfg, double, fix, None);
+        // the 16 IPv4-option base packets get double flips under the default configuration only
+        let double_opts = double && cfg.medium == Medium::Ip && cfg.caps == Caps::DEFAULT;
+        let st = sweep(&cfg, double, double_opts, fix, None);
         // compact per-case outcome table
         parts.push(json!({"sweep": label, "config": cfg.name(), "flips": if double && cfg.dhcp > 0 {"all single bit flips; all double bit flips with both bits outside the all-zero BOOTP sname/file bytes"} else if double {"all single and all double bit flips"} else {"all single bit flips"},
             "ipv4_header_checksum_recomputed_after_flip": fix, "mutants_delivered": st.delivered, "outcomes": st.counts, "violating_mutants": st.viol_counts}));
@@ -568,7 +624,7 @@ pub fn run(rep: &mut Report, tier: Tier) {
             "sweeps": parts,
             "udp_zero_checksum_explicit": zero,
             "panics_inside_smoltcp_on_mutants": total.panics,
-            "flip_region": "every bit of the whole IP packet (IP header + upper-layer segment); for IPv4 additionally every flip touching the header with the header checksum recomputed, so that pseudo-header fields are corrupted with a valid header checksum",
+            "ipv4_options": "16 base packets with IPv4 options (IHL 6 EOL x4, IHL 6 NOP NOP NOP EOL, IHL 7 Router Alert + padding, IHL 15) x {udp to socket, udp to closed port, echo request, tcp syn}: intact packets must have their normal effect; every flip of the whole header including the option area is asserted (double flips for these under the default ip configuration and its header-recomputed variant)", "flip_region": "every bit of the whole IP packet (IP header incl. options + upper-layer segment); for IPv4 additionally every flip touching the header with the header checksum recomputed, so that pseudo-header fields are corrupted with a valid header checksum",
         }),
     );
     // a few mutants written out
@@ -608,6 +664,14 @@ pub fn replay(r: &Value) -> i32 {
             println!("effect on a fresh prepared interface: {} (socket set changed: {}, frames emitted: {})", o.effect(), o.sock_changed, o.frames.len());
             for f in &o.frames {
                 println!("  emitted {}", hex(f));
+            }
+            if r["expect_effect"].as_bool().unwrap_or(false) {
+                if o.effect() == "no-effect" && matches!(v, Verdict::StillValid) {
+                    println!("violation: packet verifies independently but is ignored");
+                    return 1;
+                }
+                println!("no violation on replay");
+                return 0;
             }
             if matches!(v, Verdict::MustDrop(_)) && o.effect() != "no-effect" {
                 println!("violation: checksum wrong but packet had an effect");
